@@ -380,19 +380,28 @@ class CookieJar(AbstractCookieJar):
                 cookie["path"] = path
             path = path.rstrip("/")
 
+            expiry_set = False
             if max_age := cookie["max-age"]:
                 try:
                     delta_seconds = int(max_age)
                     max_age_expiration = min(time.time() + delta_seconds, self.MAX_TIME)
                     self._expire_cookie(max_age_expiration, domain, path, name)
+                    expiry_set = True
                 except ValueError:
+                    # an invalid Max-Age is ignored, Expires (if any) governs
                     cookie["max-age"] = ""
 
-            elif expires := cookie["expires"]:
+            if not expiry_set and (expires := cookie["expires"]):
                 if expire_time := self._parse_date(expires):
                     self._expire_cookie(expire_time, domain, path, name)
+                    expiry_set = True
                 else:
                     cookie["expires"] = ""
+
+            if not expiry_set:
+                # a session cookie replacing one that had a deadline must not
+                # inherit that deadline
+                self._expirations.pop((domain, path, name), None)
 
             key = (domain, path)
             if self._cookies[key].get(name) != cookie:
